@@ -354,6 +354,10 @@ def reader_obligations(eng, configs=CONFIGS, methods=("_read_next", "read"), gho
             if fr1 is None: return z3.BoolVal(False)
             d1 = st1.getf(fr1, "_frame_data"); return z3.And(d1.n == n_expr, v["raw"].n == rn_expr)
         goals = []
+        if fr1 is None:
+            # T14: where the read position is once the reader hunts: a discarded frame skips to the next flag (or the end of the buffered input), a non-flag octet in hunt mode is just consumed
+            goals.append(("T14 hunt mode afterwards: a discard skips to the next flag or the end of the input; a non-flag octet while hunting is consumed",
+                          (v["gp"] == S.FI(G, old["gp"] + 1, old["gt"])) if in_frame else z3.Implies(z3.Not(flag), v["gp"] == old["gp"] + 1)))
         if not in_frame:
             goals.append(("T1 hunt mode, not a flag: stays in hunt mode, nothing completes", z3.Implies(z3.Not(flag), z3.And(hunt1, z3.BoolVal(not is_true)))))
             goals.append(("T2 hunt mode, flag: a new empty frame starts", z3.Implies(flag, z3.And(frame_is(0, 0), z3.BoolVal(not is_true)))))
@@ -399,7 +403,7 @@ def reader_obligations(eng, configs=CONFIGS, methods=("_read_next", "read"), gho
             for in_frame in (False, True):
                 st = State(); rd, buf = mk_reader(st, cfg, in_frame, eng=eng); assume_inv(st, rd)
                 v0 = reader_view(st, rd); st.pc.append(v0["pl"] >= 1)
-                old = {"pl": v0["pl"], "gt": v0["gt"], "gle": v0["gle"], "c": G[v0["gp"]], "esc": v0["esc"], "rn": v0["raw"].n, "raw": v0["raw"].arr}
+                old = {"pl": v0["pl"], "gt": v0["gt"], "gle": v0["gle"], "gp": v0["gp"], "c": G[v0["gp"]], "esc": v0["esc"], "rn": v0["raw"].n, "raw": v0["raw"].arr}
                 if in_frame:
                     d0 = st.getf(v0["fr"], "_frame_data"); old.update(n=d0.n, arr=d0.arr, cp=S.CP(d0.arr, d0.n))
                 ctx = Ctx(eng, mod, cls, R + "_read_next", root_name=f"{R}_read_next[{cfg_label(cfg, in_frame)}]"); ctx.verifying = R + "_read_next"
@@ -430,7 +434,7 @@ def reader_obligations(eng, configs=CONFIGS, methods=("_read_next", "read"), gho
             v1 = reader_view(s2, rd)
             s2.pc += [v1["pl"] <= v0["pl"] - 1, v1["pl"] >= 0, v1["gt"] == v0["gt"], v1["gle"] == v0["gle"]]
             # the exact transition clauses T1-T10 (proved for _read_next) relate the new state to the old one
-            fr0 = v0["fr"]; old = {"c": G[v0["gp"]], "esc": v0["esc"], "rn": v0["raw"].n, "raw": v0["raw"].arr}
+            fr0 = v0["fr"]; old = {"c": G[v0["gp"]], "esc": v0["esc"], "rn": v0["raw"].n, "raw": v0["raw"].arr, "gp": v0["gp"], "gt": v0["gt"]}
             if fr0 is not None:
                 d0 = st.getf(fr0, "_frame_data"); old.update(n=d0.n, arr=d0.arr, cp=S.CP(d0.arr, d0.n))
             s2.pc += [g for _, g in transition_goals(cfg, fr0 is not None, old, s2, rd, result)]
